@@ -19,7 +19,10 @@ RULE = ("Hypothesis builds arrays of 1..50 elements (strictly increasing absciss
         "omitted, explicit lstart/rstop below, at or above the data or exactly 0 / 0.0 / -0.0, interval sizes that do "
         "and do not divide the length, index pairs (i, j) with i*n+j inside the array; lengths 1 and 2 over-weighted "
         "wherever the documented precondition allows them; value kinds include exact zeros at random positions and "
-        "'mixed magnitude' (rows of non-dyadic O(0.1) values next to rows of 1e12-scale peaks). One sub-check per "
+        "'mixed magnitude' (rows of non-dyadic O(0.1) values next to rows of 1e12-scale peaks); abscissa kinds include "
+        "'tiny' (1e-9..1e-12 x non-uniform integer lattice), 'near-uniform' (uniform step with 1e-7..1e-5 relative "
+        "jitter incl. the last step) and 'offset' (1.7e9 + small non-uniform gaps), where default-tolerance "
+        "allclose / isclose spacing tests answer wrongly. One sub-check per "
         "helper family, each compared with a closed form written from the docstrings, plus histories of 3..12 "
         "operations (reads, writes, views, len, full-interval count, iteration, extensions) on ONE IntervalArray "
         "compared with a list model after every step. Non-trivial = length not divisible by n, or n >= 2 with "
@@ -33,7 +36,9 @@ ASSUMPTIONS = ["default end values of extend_linspace need len(a) > n (documente
                "with non-decreasing indices inside 0..len(a)",
                "index pairs are Python ints with 0 <= j < n and i*n+j < len(a)",
                "'bitwise' clauses are checked as exact value equality (==, NaN matching NaN): numpy.linspace turns "
-               "-0.0 into +0.0; interpolated / extrapolated values: |got-want| <= 1e-12 * magnitude of the two operands",
+               "-0.0 into +0.0; interpolated / extrapolated / appended values are compared with exact rational values, "
+               "tolerance 16 ulp (append: 8 ulp) of the magnitude of the operands of THAT element (the two neighbours; "
+               "end value, first/last element and mirror source) - twice the a-priori rounding bound, nothing global",
                "sums and means (average, round trip, sum_over_indices, integral rules) are compared with exact rational "
                "values; tolerance 2*k ulp of the magnitude of THAT row / range / element only (k = number of rounded "
                "operations; twice the a-priori bound of any summation order), exact when a row or range holds one value",
@@ -46,12 +51,10 @@ TECHNIQUE = ("Hypothesis-generated arrays / interval sizes / directions / end va
 LEVEL_TEXT = ("Randomized exploration of small inputs (length <= 50, n <= 16: the helpers are index arithmetic, every "
               "boundary - length 1, n = 1, remainder 0..n-1, each direction, explicit end values on either side - is "
               "reached many times) against independent closed forms; exact comparison wherever the contract is a copy, "
-              "a few ulp of the local magnitude for sums / means (exact rational oracle), 1e-12 relative for "
-              "interpolation. Model-based histories on one object expose state kept between calls. Exploration, not "
-              "proof.")
+              "a few ulp of the local magnitude for everything computed (exact rational oracle). Model-based histories "
+              "on one object expose state kept between calls. Exploration, not proof.")
 LEVEL_NOTE = "trusts the closed forms in this module (a few lines each, no traffic_weaver import) and the tolerance"
 
-RTOL = 1e-12
 DIRECTIONS = ["both", "left", "right", "default"]
 
 
@@ -101,10 +104,45 @@ def _mixed(draw, m, block=None):
     return out[:m]
 
 
+_GAPS = [1, 1, 2, 3, 5, 8]
+
+
+@st.composite
+def _spacing_kind(draw, m, kind):
+    """strictly increasing abscissae on which a spacing test with numpy's default allclose / isclose tolerances
+    (rtol 1e-5, atol 1e-8) gives the wrong answer:
+      tiny         - 1e-9 / 1e-10 / 1e-12 times a non-uniform integer lattice (every step is below atol)
+      near-uniform - uniform step h, some points (always the last one) moved by 1e-7..1e-5 of h
+      offset       - 1.7e9 + small non-uniform gaps (epoch seconds)"""
+    if kind == "tiny":
+        scale = draw(st.sampled_from([1e-9, 1e-9, 1e-10, 1e-12]))
+        k = [draw(st.sampled_from([0, 0, 1, -3, 17]))]
+        for g in draw(st.lists(st.sampled_from(_GAPS), min_size=m - 1, max_size=m - 1)):
+            k.append(k[-1] + g)
+        return [scale * v for v in k]
+    if kind == "near-uniform":
+        h = draw(st.sampled_from([1.0, 1.0, 0.5, 0.25, 1e-3, 60.0, 3600.0, 0.1]))
+        x0 = draw(st.sampled_from([0.0, 0.0, 1.0, -7.0, 100.0])) * h
+        x = [x0 + i * h for i in range(m)]
+        moved = set(draw(st.lists(st.sampled_from(range(m)), max_size=3))) | {m - 1}
+        for i in sorted(moved):
+            x[i] = x[i] + h * draw(st.sampled_from([1e-7, 3e-7, 1e-6, 3e-6, 1e-5, -1e-7, -1e-6, -3e-6, -1e-5]))
+        return x
+    base = draw(st.sampled_from([1.7e9, 1.7e9, 1.7e9 + 12345.0, 1.7e9 + 0.5]))
+    x = [base]
+    for g in draw(st.lists(st.sampled_from([0.25, 0.5, 1.0, 1.5, 2.0, 3.0, 7.0, 0.1, 0.3]), min_size=m - 1, max_size=m - 1)):
+        x.append(x[-1] + g)
+    return x
+
+
 @st.composite
 def _values(draw, m, increasing=False, block=None):
     """dict(a=list, kind, int): m numbers; ints are Python ints (-> int64 array), floats Python floats."""
-    src = draw(st.sampled_from(["int", "x", "y", "y", "mixed", "mixed"] if not increasing else ["int", "x", "x", "x"]))
+    src = draw(st.sampled_from(["int", "x", "y", "y", "mixed", "mixed", "tiny", "near-uniform", "offset"]
+                               if not increasing else
+                               ["int", "x", "x", "tiny", "tiny", "near-uniform", "near-uniform", "offset"]))
+    if src in ("tiny", "near-uniform", "offset"):
+        return dict(a=draw(_spacing_kind(m, src)), kind="x:" + src, int=False)
     if src == "mixed":
         return dict(a=draw(_mixed(m, block)), kind="mixed-magnitude", int=False)
     if src == "int":
@@ -147,6 +185,16 @@ def _arg(a, as_int, as_list):
     if as_list:
         return list(a)
     return np.array(a, dtype=np.int64 if as_int else float)
+
+
+def _xkind(case, key="kind"):
+    k = case.get(key, "")
+    return "x:" + (k[2:] if k in ("x:tiny", "x:near-uniform", "x:offset") else "other")
+
+
+def _rec(ctx, case, classes, nontrivial):
+    """record with the spacing kind of the abscissae / array added to the classes"""
+    ctx.record(case, set(classes) | {_xkind(case, "xkind" if "xkind" in case else "kind")}, nontrivial)
 
 
 def _base_classes(a, n, as_int, as_list):
@@ -247,9 +295,11 @@ def o_oversample_linspace(a, n):
     for k in range(len(af) - 1):
         lo, hi = af[k], af[k + 1]
         out.append((lo, None))
-        s = max(abs(lo), abs(hi))
+        # exact value; tolerance from the two neighbours only: difference, quotient, product and sum are each rounded
+        # once, at most 7 * 2**-53 * max(|lo|, |hi|) in total - 16 ulp of that magnitude is twice the bound
+        tol = _ulp_tol(8, max(abs(lo), abs(hi)))
         for j in range(1, n):
-            out.append((lo + (hi - lo) * j / n, RTOL * s))
+            out.append((Fraction(lo) + (Fraction(hi) - Fraction(lo)) * j / n, tol))
     out.append((af[-1], None))
     return out
 
@@ -274,14 +324,14 @@ def o_extend_linspace(a, n, direction, lstart=None, rstop=None):
     left, right = _sides(direction)
     out = []
     if left:
-        ls = float(lstart) if lstart is not None else 2 * af[0] - af[n]
-        s = max(abs(ls), abs(af[0]), abs(af[n]) if lstart is None else 0.0)
-        out.extend((ls + (af[0] - ls) * k / n, RTOL * s) for k in range(n))
+        ls = Fraction(lstart) if lstart is not None else 2 * Fraction(af[0]) - Fraction(af[n])
+        tol = _ulp_tol(8, max(abs(float(ls)), abs(af[0]), abs(af[n]) if lstart is None else 0.0))
+        out.extend((ls + (Fraction(af[0]) - ls) * k / n, tol) for k in range(n))
     out.extend((v, None) for v in af)
     if right:
-        rs = float(rstop) if rstop is not None else 2 * af[-1] - af[-1 - n]
-        s = max(abs(rs), abs(af[-1]), abs(af[-1 - n]) if rstop is None else 0.0)
-        out.extend((af[-1] + (rs - af[-1]) * k / n, RTOL * s) for k in range(1, n + 1))
+        rs = Fraction(rstop) if rstop is not None else 2 * Fraction(af[-1]) - Fraction(af[-1 - n])
+        tol = _ulp_tol(8, max(abs(float(rs)), abs(af[-1]), abs(af[-1 - n]) if rstop is None else 0.0))
+        out.extend((Fraction(af[-1]) + (rs - Fraction(af[-1])) * k / n, tol) for k in range(1, n + 1))
     return out
 
 
@@ -343,7 +393,7 @@ def oversample_linspace_body(ctx, case):
     if n >= 2 and not np.issubdtype(res.dtype, np.floating):
         raise Violation(f"oversample_linspace: dtype {res.dtype}, expected float")
     _compare("oversample_linspace", got, o_oversample_linspace(a, n))
-    ctx.record(case, _base_classes(a, n, case["int"], case["as_list"]), _nontrivial_oversample(a, n))
+    _rec(ctx, case, _base_classes(a, n, case["int"], case["as_list"]), _nontrivial_oversample(a, n))
 
 
 # ---- 2. oversample_piecewise_constant --------------------------------------------------------------------------
@@ -353,20 +403,22 @@ def oversample_piecewise_body(ctx, case):
     res = sau.oversample_piecewise_constant(_arg(a, case["int"], case["as_list"]), n)
     got = _vec(res, "oversample_piecewise_constant", (len(a) - 1) * n + 1, allow_input_type=n < 2)
     _compare("oversample_piecewise_constant", got, o_oversample_piecewise(a, n))
-    ctx.record(case, _base_classes(a, n, case["int"], case["as_list"]), _nontrivial_oversample(a, n))
+    _rec(ctx, case, _base_classes(a, n, case["int"], case["as_list"]), _nontrivial_oversample(a, n))
 
 
 # ---- 3. extend_linspace ----------------------------------------------------------------------------------------
 
 @st.composite
-def _end_value(draw, anchor, is_int):
+def _end_value(draw, anchor, is_int, gap=None):
     """explicit end value below, at or above `anchor`, or exactly zero (a falsy but perfectly valid end value)"""
     kind = draw(st.sampled_from(["below", "below", "above", "above", "at", "at", "zero", "zero", "zero", "zero"]))
     if kind == "at":
         return kind, anchor
     if kind == "zero":
         return kind, draw(st.sampled_from([0, 0.0, -0.0]))
-    if is_int and draw(st.booleans()):
+    if gap and draw(st.booleans()):
+        d = gap * draw(st.sampled_from([0.5, 1, 2, 3, 10]))        # on the scale of the data's own spacing
+    elif is_int and draw(st.booleans()):
         d = draw(st.integers(1, 40))
     else:
         d = draw(st.one_of(st.integers(1, 64).map(lambda v: v / 8.0), fl(1e-3, 1e3)))
@@ -391,9 +443,9 @@ def extend_linspace_case(draw, ctx):
     lkind = rkind = "none"
     lstart = rstop = None
     if l_explicit:
-        lkind, lstart = draw(_end_value(a[0], d["int"]))
+        lkind, lstart = draw(_end_value(a[0], d["int"], abs(a[1] - a[0]) if len(a) > 1 else None))
     if r_explicit:
-        rkind, rstop = draw(_end_value(a[-1], d["int"]))
+        rkind, rstop = draw(_end_value(a[-1], d["int"], abs(a[-1] - a[-2]) if len(a) > 1 else None))
     d.update(n=n, direction=direction, lstart=lstart, rstop=rstop, lkind=lkind, rkind=rkind, mode=mode)
     return d
 
@@ -419,7 +471,7 @@ def extend_linspace_body(ctx, case):
         cls.add("rstop:" + (case["rkind"] if case["rstop"] is not None else "mirror"))
     if len(a) <= n:
         cls.add("len<=n")
-    ctx.record(case, cls, len(a) % n != 0 or _nontrivial_oversample(a, n))
+    _rec(ctx, case, cls, len(a) % n != 0 or _nontrivial_oversample(a, n))
 
 
 # ---- 4. extend_constant ----------------------------------------------------------------------------------------
@@ -442,7 +494,7 @@ def extend_constant_body(ctx, case):
     cls.add("dir:" + direction)
     if a[0] != a[-1]:
         cls.add("ends-differ")
-    ctx.record(case, cls, len(a) % n != 0 or _nontrivial_oversample(a, n))
+    _rec(ctx, case, cls, len(a) % n != 0 or _nontrivial_oversample(a, n))
 
 
 # ---- 5. append_one_sample --------------------------------------------------------------------------------------
@@ -467,7 +519,10 @@ def append_body(ctx, case):
     gy = _vec(res[1], "append_one_sample y", m + 1)
     xf = [float(v) for v in x]
     yf = [float(v) for v in y]
-    wx = [(v, None) for v in xf] + [(xf[-1] + (xf[-1] - xf[-2]), RTOL * max(abs(xf[-1]), abs(xf[-2])))]
+    # the appended abscissa is x[-1] plus the LAST step, to a few ulp of the last two abscissae (8 ulp covers both
+    # 2*x[-1] - x[-2] and x[-1] + (x[-1] - x[-2])); nothing relative to the span or to 1
+    wx = [(v, None) for v in xf] + [(2 * Fraction(xf[-1]) - Fraction(xf[-2]),
+                                     _ulp_tol(4, max(abs(xf[-1]), abs(xf[-2]))))]
     wy = [(v, None) for v in yf] + [(yf[0] if periodic is True else yf[-1], None)]
     _compare("append_one_sample x", gx, wx)
     _compare(f"append_one_sample y (make_periodic={periodic})", gy, wy)
@@ -475,7 +530,7 @@ def append_body(ctx, case):
            "x-int64" if case["xint"] else "x-float64", "y-int64" if case["yint"] else "y-float64",
            "list" if case["as_list"] else "ndarray", "x-uniform" if is_uniform(xf) else "x-non-uniform",
            "y-ends-differ" if yf[0] != yf[-1] else "y-ends-equal"}
-    ctx.record(case, cls, (not is_uniform(xf)) or yf[0] != yf[-1])
+    _rec(ctx, case, cls, (not is_uniform(xf)) or yf[0] != yf[-1])
 
 
 # ---- 6. IntervalArray indexing ---------------------------------------------------------------------------------
@@ -549,7 +604,7 @@ def index_body(ctx, case):
     cls.discard("uniform")
     cls.discard("non-uniform")
     cls.add("len%n!=0" if len(a) % n else "len%n==0")
-    ctx.record(case, cls, deep)
+    _rec(ctx, case, cls, deep)
 
 
 # ---- 7. 2-D views, nr_of_full_intervals, len -------------------------------------------------------------------
@@ -595,7 +650,7 @@ def view_body(ctx, case):
     cls.add("rows=1" if rows == 1 else "rows=2" if rows == 2 else "rows>=3")
     if m < n:
         cls.add("len<n")
-    ctx.record(case, cls, m % n != 0 or _nontrivial_oversample(a, n))
+    _rec(ctx, case, cls, m % n != 0 or _nontrivial_oversample(a, n))
 
 
 # ---- 8. integral rules, dispatcher, range sums -----------------------------------------------------------------
@@ -654,7 +709,7 @@ def integral_body(ctx, case):
            "x-uniform" if is_uniform(xf) else "x-non-uniform",
            "empty-range" if any(s == e for s, e in zip(idx[:-1], idx[1:])) else "no-empty-range",
            "sum:list" if case["sum_as_list"] else "sum:ndarray", "y:" + _magnitude_class(y)}
-    ctx.record(case, cls, m >= 3 and (not is_uniform(xf) or not is_uniform(yf)))
+    _rec(ctx, case, cls, m >= 3 and (not is_uniform(xf) or not is_uniform(yf)))
 
 
 # ---- 9. average ------------------------------------------------------------------------------------------------
@@ -694,7 +749,7 @@ def average_body(ctx, case):
     if m < n:
         cls.add("len<n")
     cls.add("y:" + _magnitude_class(y))
-    ctx.record(case, cls, m % n != 0 or _nontrivial_oversample(y, n))
+    _rec(ctx, case, cls, m % n != 0 or _nontrivial_oversample(y, n))
 
 
 # ---- 10. round trip --------------------------------------------------------------------------------------------
@@ -727,7 +782,7 @@ def roundtrip_body(ctx, case):
     cls.add("x-int64" if case["xint"] else "x-float64")
     cls.add("x-uniform" if is_uniform([float(v) for v in x]) else "x-non-uniform")
     cls.add("y:" + _magnitude_class(y))
-    ctx.record(case, cls, ((m - 1) * n + 1) % n != 0 or _nontrivial_oversample(y, n))
+    _rec(ctx, case, cls, ((m - 1) * n + 1) % n != 0 or _nontrivial_oversample(y, n))
 
 
 # ---- 11. the same helpers reached through IntervalArray --------------------------------------------------------
@@ -774,7 +829,7 @@ def methods_body(ctx, case):
     cls = _base_classes(a, n, case["int"], case["as_list"])
     cls.add("dir:" + direction)
     cls.add("num=1" if num == 1 else "num>=2")
-    ctx.record(case, cls, len(a) % n != 0 or _nontrivial_oversample(a, max(n, num)))
+    _rec(ctx, case, cls, len(a) % n != 0 or _nontrivial_oversample(a, max(n, num)))
 
 
 # ---- 12. histories on one IntervalArray object -----------------------------------------------------------------
@@ -908,37 +963,38 @@ def history_body(ctx, case):
     cls |= {"n=1" if n == 1 else "n=2" if n == 2 else "n=3..8" if n <= 8 else "n=9..16",
             "int64" if case["int"] else "float64", "list" if case["as_list"] else "ndarray",
             "len%n!=0" if len(a) % n else "len%n==0"}
-    ctx.record(case, cls, nontrivial)
+    _rec(ctx, case, cls, nontrivial)
 
 
-# thorough budgets: the runner multiplies them by TWV_THOROUGH_SCALE (5): 20 000 cases per sub-check = 50 x quick
+# budgets: the runner multiplies quick by TWV_QUICK_SCALE (3) and thorough by TWV_THOROUGH_SCALE (5):
+# 900 / 20 000 cases per sub-check
 SUBCHECKS = [
-    Sub("oversample_linspace", "hyp", oversample_linspace_body, strategy=oversample_case, quick=400, thorough=4000,
+    Sub("oversample_linspace", "hyp", oversample_linspace_body, strategy=oversample_case, quick=300, thorough=4000,
         clause="n-fold oversampling keeps every original element at every n-th position, fills the gaps linearly"),
-    Sub("oversample_piecewise", "hyp", oversample_piecewise_body, strategy=oversample_case, quick=400, thorough=4000,
+    Sub("oversample_piecewise", "hyp", oversample_piecewise_body, strategy=oversample_case, quick=300, thorough=4000,
         clause="n-fold oversampling keeps every original element and fills the gaps with the left value"),
-    Sub("extend_linspace", "hyp", extend_linspace_body, strategy=extend_linspace_case, quick=400, thorough=4000,
+    Sub("extend_linspace", "hyp", extend_linspace_body, strategy=extend_linspace_case, quick=300, thorough=4000,
         clause="extending adds exactly n per requested side, continues linearly (mirror point or explicit end value), "
                "original elements in the middle"),
-    Sub("extend_constant", "hyp", extend_constant_body, strategy=extend_constant_case, quick=400, thorough=4000,
+    Sub("extend_constant", "hyp", extend_constant_body, strategy=extend_constant_case, quick=300, thorough=4000,
         clause="extending adds exactly n per requested side, continues constantly, original elements in the middle"),
-    Sub("append_one_sample", "hyp", append_body, strategy=append_case, quick=400, thorough=4000,
+    Sub("append_one_sample", "hyp", append_body, strategy=append_case, quick=300, thorough=4000,
         clause="appending one sample continues x by its last step and y by its last (periodic: first) value"),
-    Sub("interval_index", "hyp", index_body, strategy=index_case, quick=400, thorough=4000,
+    Sub("interval_index", "hyp", index_body, strategy=index_case, quick=300, thorough=4000,
         clause="the interval view maps [i, j] to flat index i*n+j (plain int: flat index) for reads and writes"),
-    Sub("interval_views", "hyp", view_body, strategy=view_case, quick=400, thorough=4000,
+    Sub("interval_views", "hyp", view_body, strategy=view_case, quick=300, thorough=4000,
         clause="row-by-row layout with NaN padding; closed-interval view = rows plus next row's first element, "
                "with/without the last row; number of full intervals; length"),
-    Sub("integrals", "hyp", integral_body, strategy=integral_case, quick=400, thorough=4000,
+    Sub("integrals", "hyp", integral_body, strategy=integral_case, quick=300, thorough=4000,
         clause="rectangle / trapezoid rule, dispatcher and range sums equal the direct sums"),
-    Sub("average", "hyp", average_body, strategy=average_case, quick=400, thorough=4000,
+    Sub("average", "hyp", average_body, strategy=average_case, quick=300, thorough=4000,
         clause="block averaging returns each row's mean ignoring the padding and each row's first abscissa"),
-    Sub("roundtrip", "hyp", roundtrip_body, strategy=roundtrip_case, quick=400, thorough=4000,
-        clause="averaging an n-fold piecewise-constant oversampling returns the input (x exactly, y to 1e-12)"),
-    Sub("interval_methods", "hyp", methods_body, strategy=methods_case, quick=300, thorough=3000,
+    Sub("roundtrip", "hyp", roundtrip_body, strategy=roundtrip_case, quick=300, thorough=4000,
+        clause="averaging an n-fold piecewise-constant oversampling returns the input (x exactly, y to 2n ulp of each value)"),
+    Sub("interval_methods", "hyp", methods_body, strategy=methods_case, quick=240, thorough=3000,
         clause="the same extension / oversampling contracts when reached through IntervalArray (one interval per "
                "side; oversampled view keeps original row starts)"),
-    Sub("interval_history", "hyp", history_body, strategy=history_case, quick=400, thorough=4000,
+    Sub("interval_history", "hyp", history_body, strategy=history_case, quick=300, thorough=4000,
         clause="reads, writes, 2-D views, length, full-interval count, iteration and extensions interleaved on ONE "
                "object agree with a plain list model after every step (a view taken after a write shows the write)"),
 ]
